@@ -210,6 +210,15 @@ def run(prop, tier, seed, replay=None):
                                                 ["restart", {"defaults": True}], ["restart"],
                                                 ["propupdate", "ab1", [["displayname", None]]],
                                                 ["restart", {"defaults": True}]]),
+        # both conditional headers on one request, in every combination of satisfied / violated
+        "both-conditions": (HTTP_CONFIGS[0], [["mk", "cal1", "calendar"], ["put", "cal1", "a.ics", "@model:1"]] + [
+            ["put", "cal1", "a.ics", "@model:%d" % (2 if k % 2 else 1), {"im": im, "inm": inm}]
+            for k, (im, inm) in enumerate([(["cur"], ["cur"]), (["star"], ["star"]), (["cur"], ["other"]), (["stale"], ["other"]),
+                                            (["cur"], ["star"]), (["star"], ["cur"]), (["cur"], ["empty"]), (["empty"], ["other"]),
+                                            (["other", "cur"], ["stale", "cur"]), (["cur"], ["garbage"])])] + [
+            ["put", "cal1", "new%d.ics" % k, "@model:3", {"im": im, "inm": inm}]
+            for k, (im, inm) in enumerate([(["star"], ["star"]), (["garbage"], ["star"]), (["empty"], ["star"])])] + [
+            ["delete", "cal1", "a.ics", {"im": ["stale"]}], ["delete", "cal1", "a.ics", {"im": ["cur"]}]]),
         # bare repositories served by one long-lived process: a request that fails half-way (the
         # delete of an object whose change description cannot be made), histories that return to
         # an earlier tree (create, delete, create again with the UID that became free)
